@@ -10,7 +10,7 @@ import (
 )
 
 func init() {
-	register("C16", "script channels and goroutines deliver every message once, in order", checkC16)
+	register("C16", "script channels and goroutines deliver every message once, in order", func(p *Program, r *Report) { checkC16(p, r); c16Extra(p, r) })
 }
 
 // selectSite describes one reflect.Select call of package vm.
